@@ -1,12 +1,17 @@
 (* C04 -- every request gets exactly one final answer, in bounded time.
    Theorems over Model/Daemon.v (the whole daemon as a transducer per pass of _select_loop, tied to the real powermand by the
    per-pass replay R-SIM), Model/Client.v (single client stream) and Model/Device.v (timers).  Quantification: every
-   configuration of devices of any transport satisfying the parser's guarantees (cfg_ok), every list of rounds (= every interleaving
-   of client connections, input bytes, closes, device bytes, faults, connect outcomes and clock steps), every oracle. *)
+   configuration of devices of any transport satisfying the parser's guarantees (cfg_ok) and the static nesting bound nest_ok
+   (no script nests its blocks more than DeviceFuel.DMAX = 7 deep; no shipped script nests deeper than 1: SpecBridge.shipped_max_depth),
+   every list of rounds (= every interleaving of client connections, input bytes, closes, device bytes, faults, connect outcomes
+   and clock steps), every oracle.
+   Hang (the fuel of the model's loops running out) is IMPOSSIBLE in every whole-daemon theorem below: the per-device invariant
+   carried by DPInv / boot is Proofs/DeviceHang.DInvH (= DInvG, 0 <= retry_count, queued plug lists no longer than the device's,
+   nest_ok of the device's scripts), under which one device's share of dev_post_poll always returns Ok (post_poll_one_invH). *)
 From Coq Require Import List NArith ZArith Bool Permutation.
 From PM Require Import Base.Bytes Base.Outcome Gen.GenConsts Model.ScriptAst Model.Enqueue Model.Script Model.Device Model.DevHarness
                        Model.Client Model.CliWorld Model.Daemon Spec.Proto
-                       Proofs.ClientProto Proofs.ClientStream Proofs.DeviceInv Proofs.DeviceRun Proofs.DeviceInvG Proofs.DeviceRunG Proofs.DeviceTimer Proofs.DaemonLedger Proofs.DaemonFrame Proofs.DaemonPending Model.Xpoll Proofs.XpollProofs.
+                       Proofs.ClientProto Proofs.ClientStream Proofs.DeviceInv Proofs.DeviceRun Proofs.DeviceInvG Proofs.DeviceRunG Proofs.DeviceFuel Proofs.DeviceHang Proofs.DeviceTimer Proofs.DaemonNoHang Proofs.DaemonLedger Proofs.DaemonFrame Proofs.DaemonPending Model.Xpoll Proofs.XpollProofs.
 From PM Require Properties.C07.
 Import ListNotations.
 Local Open Scope Z_scope.
@@ -22,8 +27,9 @@ Section C04.
 
   (* The cross-layer invariant, from start-up, over EVERY history of passes (every transport: for tcp devices the telnet
      filter's option replies land in dev->to, which DInvG does not constrain - crash-freedom there rests on the repair F38):
-       - the pass function never returns Exit / Abort / MemErr: in particular _act_finish always finds the command it
-         completes (assert(c->cmd != NULL) is unreachable) and no device-layer assert fires;
+       - the pass function ALWAYS returns Ok: never Exit / Abort / MemErr - in particular _act_finish always finds the command it
+         completes (assert(c->cmd != NULL) is unreachable) and no device-layer assert fires - and never Hang (no loop of the
+         model runs out of fuel: `boot` includes nest_ok of every device's scripts, Proofs/DeviceHang.v);
        - for every live client:  pending = number of its actions still queued on the devices   (no completion is lost,
          none is delivered twice, none reaches another client: ids are unique);
        - for every live client the output produced so far parses as protocol tokens with
@@ -40,19 +46,17 @@ Section C04.
       match drun expand_str ranged_sorted ranged_plain sorted rmatch compress short_circuit st1 rs [] with
       | Ok (st', outs) =>
           Forall (fun x => cli_ok x /\ pend (dc x) = cnt (cid x) (qall (dm_devs st'))) (dm_clients st') /\
-          NoDup (ids st') /\ Forall (DInvRG compress) (dm_devs st') /\
+          NoDup (ids st') /\ Forall (DInvH compress) (dm_devs st') /\
           Forall (fun o => forall t, do_tmo o = Some t -> 0 < t) outs
-      | Hang _ => True
       | _ => False
       end.
   Proof. exact (daemon_invariant expand_str ranged_sorted ranged_plain sorted rmatch compress short_circuit). Qed.
 
-  (* one pass re-establishes the invariant (the induction step, usable from any state that satisfies it) *)
+  (* one pass ALWAYS returns Ok and re-establishes the invariant (the induction step, usable from any state that satisfies it) *)
   Theorem C04_pass_invariant : forall st r, DPInv compress st -> NL st -> 1 <= dm_seq st < INT_MAX ->
     match dstep expand_str ranged_sorted ranged_plain sorted rmatch compress short_circuit st r with
     | Ok (st', o) => DPInv compress st' /\ NL st' /\ (forall t, do_tmo o = Some t -> 0 < t) /\ length (dm_devs st') = length (dm_devs st) /\
                      dm_seq st <= dm_seq st' <= dm_seq st + 1
-    | Hang _ => True
     | _ => False
     end.
   Proof. exact (dstep_inv expand_str ranged_sorted ranged_plain sorted rmatch compress short_circuit). Qed.
@@ -75,18 +79,18 @@ Section C04.
 
   (* the device layer's timers, per pass of the device world (Model/DevHarness.v): every device whose queue is not empty has
      asked for a time-out t with 0 < t <= (deadline of its head action) - now, unless the head is the not yet started login
-     with no client action behind it: no request waits without a timer *)
-  Theorem C04_no_timerless_wait : forall h, HInv compress h ->
+     with no client action behind it: no request waits without a timer.  HInvH = every device of the harness world satisfies
+     DInvH: with it the pass always returns (no Hang) *)
+  Theorem C04_no_timerless_wait : forall h, HInv compress h -> HInvH compress h ->
     match hstep rmatch compress short_circuit h HPass with
     | Ok (h', o) =>
         tmo_pos (o_tmo o) /\ h_now h' = h_now h /\
         forall k d p, nth_error (h_devs h) k = Some (d, p) ->
           exists d', nth_error (h_devs h') k = Some (d', apply_evs p (evs_of k (o_evs o))) /\
                      dev_pass_ok compress (h_now h) d d' (evs_of k (o_evs o)) (o_tmo o)
-    | Hang _ => True
     | _ => False
     end.
-  Proof. exact (hpass_ok rmatch compress short_circuit). Qed.
+  Proof. exact (hpass_ok_H rmatch compress short_circuit). Qed.
 End C04.
 
 (* the deadline of an action never moves once it is stamped: not by a rewind (re-login), not by advancing *)
@@ -114,10 +118,17 @@ Definition ex_st : daemon :=
 Example C04_boot_example : boot C07.ex_compress ex_st.
 Proof.
   split; [reflexivity|]. split; [reflexivity|]. constructor; [|constructor].
-    destruct (mk_device_invG C07.ex_compress (bslit "d0") [mkPlug (bslit "p1") (Some (bslit "n1"))]
+    destruct (mk_device_invH C07.ex_compress (bslit "d0") [mkPlug (bslit "p1") (Some (bslit "n1"))]
                [(PM_LOG_IN, [Send (bslit "login\n"); Expect (bslit "ok")]); (PM_POWER_ON, [Send (bslit "on %s\n"); Expect (bslit "done")])] 5000000 0
-               C07.C07_cfg_ok_example) as [H1 H2].
+               C07.C07_cfg_ok_example (proj1 C07.C07_nest_ok_example)) as [H1 H2].
     split; [exact H1|]. split; [exact H2|]. split; reflexivity.
+Qed.
+(* non-vacuity of the hypotheses of C04_no_timerless_wait: the harness world of C07's example device satisfies both invariants *)
+Example C04_no_timerless_wait_nonvacuous : HInv C07.ex_compress C07.ex_h0 /\ HInvH C07.ex_compress C07.ex_h0.
+Proof.
+  split; (constructor; [|constructor]); cbn [fst].
+  - exact (proj1 (mk_device_inv C07.ex_compress _ _ _ _ _ C07.C07_cfg_ok_example)).
+  - exact (proj1 (mk_device_invH C07.ex_compress _ _ _ _ _ C07.C07_cfg_ok_example (proj1 C07.C07_nest_ok_example))).
 Qed.
 (* the same device behind a tcp transport (telnet filter active) *)
 Definition ex_st_tcp : daemon :=
@@ -172,7 +183,8 @@ Proof. vm_compute. split; reflexivity. Qed.
 (* ---------------- the hypothesis `boot` is what start-up produces: a daemon whose devices all use SHIPPED specifications
    (etc/devices, t/etc: the data of C17, regenerated from the tree on every run) - any device names, plug lists, transports,
    node / alias tables - satisfies it, so every whole-daemon theorem of this file, of C11, C15 and C20 applies to it with no
-   hypothesis left about the configuration (Proofs/SpecBridge.v) ---------------- *)
+   hypothesis left about the configuration (Proofs/SpecBridge.v: shipped_cfg_ok, and shipped_nest_ok for the nesting bound that
+   excludes Hang - decided by computation on the regenerated specifications on every run) ---------------- *)
 From PM Require Import Gen.GenSpecs Proofs.SpecBridge.
 Definition shipped_device (c : text * spec * text * list plug) : device :=
   let '(file, s, name, plugs) := c in mk_device name plugs (sp_scripts s) (sp_timeout s) (sp_ping s).
@@ -183,7 +195,7 @@ Proof.
   intros compress nodes aliases specs pipes version tel cfgs H. split; [reflexivity|]. split; [reflexivity|].
   cbn [dm_devs]. induction H as [|[[[file s] name] plugs] r Hin Hr IH]; cbn [map]; constructor; [|exact IH].
   cbn [shipped_device].
-  destruct (mk_device_invG compress name plugs (sp_scripts s) (sp_timeout s) (sp_ping s) (shipped_cfg_ok compress file s name plugs _ _ Hin)) as [H1 H2].
+  destruct (shipped_invH compress file s name plugs (sp_timeout s) (sp_ping s) Hin) as [H1 H2].
   split; [exact H1|]. split; [exact H2|]. split; reflexivity.
 Qed.
 Example C04_shipped_boot_nonvacuous :
@@ -216,14 +228,17 @@ Print Assumptions C04_xpoll_within_deadline.
    The unsteady case is proved below for time-out + latency < 60 s (C04_bounded_time: the back-off table ends the starvation),
    through the select loop with the passes tied to the time-outs they request.
    (* OPEN *)  `quiet_for` (nothing new queued on the devices concerned) is a hypothesis on the run, derived only for runs without
-   client input; `dtimely` is an assumption about poll / the scheduler; Hang (the model's loop fuel) is excluded by assuming the
-   run returns Ok. *)
+   client input; `dtimely` is an assumption about poll / the scheduler.  Hang (the model's loop fuel) is impossible: DPInv
+   carries DInvH (static hypothesis nest_ok: blocks nested at most DMAX = 7 deep; no shipped script nests deeper than 1,
+   SpecBridge.shipped_max_depth), so the run ALWAYS returns Ok (C04_pass_invariant, DaemonPending.drun_inv); the hypothesis
+   `drun ... = Ok (st', outs)` of C04_bounded_time* only names the result the other hypotheses (dtimely) speak about. *)
 From PM Require Import Proofs.DeviceMask Proofs.DeviceDeadline Proofs.DeviceDeadlineEx Proofs.DaemonDeadline.
 
 (* D1: one device's share of one pass, head past its deadline: all queued actions complete in this pass, or the expired
-   login was dropped by a disconnect and nothing came back, or a connection was established in this very pass *)
+   login was dropped by a disconnect and nothing came back, or a connection was established in this very pass (the pass
+   returns in that case too: no Hang under DInvH) *)
 Theorem C04_deadline_pass : forall rmatch compress sc now d store tmo pin act0 rest,
-  DInvG compress d -> tmo_pos tmo -> 0 <= dv_retry_count d ->
+  DInvH compress d -> tmo_pos tmo ->
   dv_acts d = act0 :: rest -> hstamp now act0 + dv_timeout d <= now ->
   flushes rmatch compress sc now d store tmo pin
   \/
@@ -236,11 +251,18 @@ Theorem C04_deadline_pass : forall rmatch compress sc now d store tmo pin act0 r
      ((dv_cstate d = DEV_CONNECTING /\ pi_finish_ok pin = true /\ pi_out pin = true) \/ hd ConnFail (pi_plans pin) = ConnNow) /\
      match post_poll_one rmatch compress sc now d store tmo pin with
      | Ok (d', _, _, evs) => completions evs ++ queued d' = queued d
-     | Hang _ => True
      | _ => False
      end).
-Proof. exact deadline_pass. Qed.
+Proof. exact deadline_pass_H. Qed.
 Print Assumptions C04_deadline_pass.
+(* non-vacuity of its hypotheses: the connected device of Proofs/DeviceDeadlineEx.v (login stamped 1 s, time-out 5 s) at 6 s *)
+Example C04_deadline_pass_nonvacuous :
+  DInvH cp d5 /\ tmo_pos None /\ exists act0 rest, dv_acts d5 = act0 :: rest /\ hstamp 6000000 act0 + dv_timeout d5 <= 6000000.
+Proof.
+  split; [|split; [exact tmo_pos_none|eexists _, _; split; [vm_compute; reflexivity|vm_compute; discriminate]]].
+  apply DInvH_intro; [exact d5_inv|]. split; [|apply nest_b_ok; vm_compute; reflexivity].
+  unfold PL, ctx_ok, dep_ok. vm_compute. repeat constructor.
+Qed.
 
 (* D2: any run of passes with non-decreasing clocks, nothing appended, no connection established under the queue: once a
    pass happens at or after `bound`, everything that was queued has been completed, in queue order *)
@@ -261,7 +283,6 @@ Theorem C04_answer_by_deadline : forall expand_str ranged_sorted ranged_plain so
   (forall st1 e1, cli_post_poll expand_str ranged_sorted ranged_plain sorted st r = Ok (st1, e1) -> due (r_now r) st1 (r_dev r) 0 id) ->
   match dstep expand_str ranged_sorted ranged_plain sorted rmatch compress short_circuit st r with
   | Ok (st', _) => DPInv compress st' /\ ~ In id (qall (dm_devs st')) /\ answered st' id
-  | Hang _ => True
   | _ => False
   end.
 Proof. exact dstep_deadline. Qed.
